@@ -358,6 +358,9 @@ func verifyFunctionCase(prog *Program, ctr *Contracts, key string, disabled map[
 	// a call-site assertion that names no existing call site is a stale contract
 	if when == nil && ex.discover == 0 {
 		for site := range fc.CallAsserts {
+			if strings.HasSuffix(site, "#*") {
+				continue // "every call of f" holds vacuously when there is none
+			}
 			if !ex.usedAsserts[site] {
 				panic(oos("contract names call site %s, which does not exist (or is unreachable) in %s", site, key))
 			}
